@@ -77,9 +77,13 @@ Proof.
   destruct (_ && _); reflexivity.
 Qed.
 
-Lemma forward_ctrl_total cfg e pid a t : total (forward_ctrl cfg e pid a t).
+Lemma total_charged cfg c d amt payee gd q fd fa : total (hyp_transfer_charged cfg c d amt payee gd q fd fa).
+Proof. intros s x. unfold hyp_transfer_charged. destruct (ext c s) as [v s1]. destruct (_ && _ && _); discriminate. Qed.
+
+(* whatever the chain's post-dispatch hooks charge *)
+Lemma forward_ctrl_g_total g cfg e pid a t : total (forward_ctrl_with false false g cfg e pid a t).
 Proof.
-  unfold forward_ctrl, forward_ctrl_with.
+  unfold forward_ctrl_with.
   destruct (pid =? protocol_cctp).
   { destruct a; try apply total_fail. apply total_bind; [apply total_lift, cctp_validate_total|]. intros _. apply total_ext_moving. }
   destruct (pid =? protocol_hyperlane).
@@ -89,14 +93,18 @@ Proof.
     apply total_bind; [apply total_lift; unfold hyp_fee_validate; destruct (fee_coin_bad _ _); reflexivity|]. intros _.
     apply total_bind; [apply total_mext|]. intros _.
     destruct (cfg_hyp_token cfg token); [|apply total_fail].
-    destruct (negb _); [apply total_fail|apply total_ext_moving]. }
+    destruct (negb _); [apply total_fail|]. cbv zeta.
+    destruct (g _ _ _) as [[[payee gd] q]|]; [apply total_charged|apply total_ext_moving]. }
   destruct (pid =? protocol_internal); [|apply total_fail].
   destruct a; try apply total_fail.
   apply total_bind; [apply total_lift, tattr_validate_total|]. intros _.
   apply total_bind; [apply total_lift, internal_validate_total|]. intros _. apply total_ext_moving.
 Qed.
+Lemma forward_ctrl_total cfg e pid a t : total (forward_ctrl cfg e pid a t).
+Proof. apply forward_ctrl_g_total. Qed.
 
-Lemma run_forwarding_total cfg e lie pp ccp f t : total (run_forwarding_with forward_ctrl cfg e lie pp ccp f t).
+Lemma run_forwarding_g_total g cfg e lie pp ccp f t :
+  total (run_forwarding_with (forward_ctrl_with false false g) cfg e lie pp ccp f t).
 Proof.
   unfold run_forwarding_with.
   apply total_bind; [apply total_lift, forwarding_validate_total|]. intros _.
@@ -108,18 +116,23 @@ Proof.
   destruct (negb (ccid_valid _)); [apply total_fail|].
   destruct (ccp (f_pid f) cp); [apply total_fail|].
   intros s x. destruct (negb (_ =? _)); [discriminate|]. destruct (negb (existsb _ _)); [discriminate|].
-  apply forward_ctrl_total.
+  apply forward_ctrl_g_total.
 Qed.
+Lemma run_forwarding_total cfg e lie pp ccp f t : total (run_forwarding_with forward_ctrl cfg e lie pp ccp f t).
+Proof. apply run_forwarding_g_total. Qed.
 
-Lemma recv_body_total cfg e lie o p pl f t : total (recv_body repaired cfg (chain_actions cfg e) e lie o p pl f t).
+Lemma recv_body_g_total g cfg e lie o p pl f t :
+  total (recv_body (with_gas repaired g) cfg (chain_actions cfg e) e lie o p pl f t).
 Proof.
-  unfold recv_body. apply total_bind; [intros s x; discriminate|]. intros prior.
+  unfold recv_body. cbn [with_gas repaired v_allow_self v_hyp_log_first v_gas]. apply total_bind; [intros s x; discriminate|]. intros prior.
   apply total_bind.
   - destruct (0 <? _); [apply total_ext_moving|apply total_ret].
   - intros _. apply total_bind; [apply total_ext_moving|]. intros _.
     apply total_bind; [apply dispatch_actions_total|]. intros t'.
-    apply total_bind; [apply run_forwarding_total|]. intros _. apply total_ret.
+    apply total_bind; [apply run_forwarding_g_total|]. intros _. apply total_ret.
 Qed.
+Lemma recv_body_total cfg e lie o p pl f t : total (recv_body repaired cfg (chain_actions cfg e) e lie o p pl f t).
+Proof. exact (recv_body_g_total no_gas cfg e lie o p pl f t). Qed.
 
 (* statistics with SafeAdd: errors (swallowed), never a panic *)
 Lemma add_amount_strict_total old new : is_panic (add_amount true old new) = false.
@@ -186,11 +199,14 @@ Definition memo_of (p : packet) : res payload :=
 
 (* the receive path returns an acknowledgement for every packet, state, tape and environment,
    provided the memo decoder itself returned (a payload or an error) *)
-Theorem recv_never_panics cfg e w p tape lie :
+Theorem recv_gas_never_panics g cfg e w p tape lie :
   is_panic (memo_of p) = false ->
-  forall x, rr_out (recv_lie cfg e w p tape lie) <> OPanic x.
+  forall x, rr_out (recv_gas g cfg e w p tape lie) <> OPanic x.
 Proof.
-  intros Hm x. unfold recv_lie, recv_with, recv_generic.
+  intros Hm x. unfold recv_gas, recv_with, recv_generic.
+  change (is_orbiter_receiver (with_gas repaired g)) with (is_orbiter_receiver repaired).
+  change (parse_orbiter_packet (with_gas repaired g)) with (parse_orbiter_packet repaired).
+  change (v_stats_strict (with_gas repaired g)) with (v_stats_strict repaired).
   destruct (negb (ccid_valid _)); [discriminate|].
   destruct (_ || _); [discriminate|].
   destruct (negb (existsb _ _)); [discriminate|].
@@ -203,8 +219,8 @@ Proof.
   destruct (parse_orbiter_packet repaired e p denom amount memo) as [[t pl]| |]; try discriminate.
   destruct (p_fwd pl) as [f|]; [|discriminate].
   destruct (_ <? _); [discriminate|].
-  match goal with |- context [recv_body ?a ?b ?c ?d ?e0 ?f0 ?g ?h ?i ?j ?k] =>
-    pose proof (recv_body_total b d e0 f0 g h i j k) as Hb; destruct (recv_body a b c d e0 f0 g h i j k) as [t' s1|l s1|y] eqn:E end.
+  match goal with |- context [recv_body ?a ?b ?c ?d ?e0 ?f0 ?g0 ?h ?i ?j ?k] =>
+    pose proof (recv_body_g_total g b d e0 f0 g0 h i j k) as Hb; destruct (recv_body a b c d e0 f0 g0 h i j k) as [t' s1|l s1|y] eqn:E end.
   - change (v_stats_strict repaired) with true.
     pose proof (update_stats_total (w_o w) t' f) as Hs.
     destruct (update_stats_swallow true (w_o w) t' f); try discriminate.
@@ -212,6 +228,10 @@ Proof.
   - discriminate.
   - exfalso. eapply Hb; eauto.
 Qed.
+Theorem recv_never_panics cfg e w p tape lie :
+  is_panic (memo_of p) = false ->
+  forall x, rr_out (recv_lie cfg e w p tape lie) <> OPanic x.
+Proof. exact (recv_gas_never_panics no_gas cfg e w p tape lie). Qed.
 
 (* statistics failures are swallowed: the update always returns a state *)
 Lemma update_stats_ok o t f : exists o', update_stats_swallow true o t f = Ok o'.
